@@ -26,7 +26,7 @@ CHRONO_ASSUMPTIONS = [
     "an eligible day exists in the search direction inside chrono's range (has_fwd/has_bwd preconditions): without it the real loops end in chrono's overflow panic; implied by a finite holiday set and a working weekday inside the range",
 ]
 
-DEP_UNITS_NOTE = "dependency units (`dep_units` in vxlib/config.py): the units holding the contracts of the functions this property's code calls are run as part of this check and EVERY obligation in them counts for this property, whatever property it is tagged for - a change inside a callee fails the callee's own obligation, and that obligation is run here"
+DEP_UNITS_NOTE = "dependency units (`dep_units` in vxlib/config.py): the units holding the contracts of the functions this property's code calls are run as part of this check and EVERY obligation in them counts for this property, whatever property it is tagged for - a change inside a callee fails the callee's own obligation, and that obligation is run here; a failed dependency obligation is reported as a violation of THIS property only with a failing input replayed on the real code - without one the check is undecided (exit 2), the owning property's check reports it under its own rule"
 IDENTITY_RULE_GENERAL = "decision rule for functions marked `identity` in the contracts (arithmetic identities: operator bodies, elementary functions, closed forms, basis functions, solver kernels): when one of their obligations stops verifying after a change it is reported as a violation only if the probe of the real code against its independent oracle finds a discrepancy; if the probe ran and found none the run is undecided (exit 2) - a nonlinear identity the solver cannot re-derive after an algebraic rearrangement is not evidence of a defect (DESIGN 4.1)"
 
 DUAL_ASSUMPTIONS = [
@@ -87,11 +87,16 @@ CHECKS = {
     },
     "C20": {
         "units": ["dateroll", "dual_core", "calendars", "fx", "ppspline"],
+        # every function these units hold is a callee of some entry point named by C20: all of them count, in safety mode (only
+        # abort-relevant obligations: overflow, division by zero, unwrap / expect / index / panic preconditions)
+        "dep_units": ["dateroll", "dual_core", "calendars", "fx", "ppspline", "linalg_f64"],
+        "dep_mode": "safety",
         "extra": "cases_engine",
         "cases": [
             {"case": "d3", "where": "rust/calendars/calendar.rs", "what": "NamedCal::from_json of a valid document whose name was altered to an unknown calendar"},
             {"case": "d4", "where": "rust/fx/rates/mod.rs", "what": "FXRates::from_json of a valid document with the quote list emptied / the currency list emptied / a quote duplicated"},
             {"case": "d6", "where": "rust/dual/linalg/linalg_dual.rs", "what": "PPSpline::csolve with a NaN site and with a NaN datum"},
+            {"case": "jsonmut", "label": "bounded sweep of 962 altered documents", "where": "rust/json/mod.rs", "what": "from_json of every document obtained from five valid ones (NamedCal, two FXRates, Cal, UnionCal) by deleting one field or list element, duplicating one list element, or altering one value (ten string alternatives incl. wrong-length and non-ASCII currency codes and unknown calendar names, nine numeric ones, null, wrong type): a value or an error, never an abort"},
         ],
         "kani": {"quick": ["std_i8_unsigned_abs", "std_i32_abs_signum", "std_i32_rem_euclid_12", "std_i32_try_from_u32", "chrono_view_is_days_from_civil", "chrono_from_ymd_validity"], "thorough": ["std_i8_unsigned_abs", "std_i32_abs_signum", "std_i32_rem_euclid_12", "std_i32_try_from_u32", "chrono_view_is_days_from_civil", "chrono_from_ymd_validity", "chrono_add_days", "chrono_sub_days"]},
         "level": "proof",
